@@ -236,8 +236,15 @@ pub fn run_scenario(s: &Scenario, ctl: &CtlRef, creator_err: CreatorErr) -> Vec<
         }
         Scenario::Read { file, v1 } => {
             let entries = file.entries.build();
-            let bytes = write_file(&file.cfg, &entries).expect("harness: reference writer failed");
-            let bytes = if *v1 { vlib::fmt::retrail_as_v1(&bytes).expect("harness: v1 re-trailing") } else { bytes };
+            let Ok(bytes) = write_file(&file.cfg, &entries) else { return prerequisite(r.steps, "the writer produced no file for a read scenario") };
+            let bytes = if *v1 {
+                match vlib::fmt::retrail_as_v1(&bytes) {
+                    Ok(b) => b,
+                    Err(_) => return prerequisite(r.steps, "the written file has no re-trailable V2 trailer"),
+                }
+            } else {
+                bytes
+            };
             let Some(reader) = r.step("Reader::new", || Reader::new(SFile::with_data(ctl, bytes.clone())), |rd| {
                 let mut d = rd.len().to_be_bytes().to_vec();
                 d.push(rd.compression_type() as u8);
@@ -333,7 +340,9 @@ pub fn run_scenario(s: &Scenario, ctl: &CtlRef, creator_err: CreatorErr) -> Vec<
             let mut cursors = Vec::new();
             for s in 0..masks.len() {
                 let (cfg, _) = crate::c06::source_cfg(cfgs[s] as usize);
-                let bytes = write_file(&cfg, &crate::c06::source_entries(s, masks[s], cfgs[s] as usize)).expect("harness: source");
+                let Ok(bytes) = write_file(&cfg, &crate::c06::source_entries(s, masks[s], cfgs[s] as usize)) else {
+                    return prerequisite(r.steps, "the writer produced no source file for a merge scenario");
+                };
                 let Some(reader) = r.step(&format!("Reader::new(src{s})"), || Reader::new(SFile::with_data(ctl, bytes)), dig_none) else {
                     return r.steps;
                 };
@@ -408,6 +417,16 @@ pub fn run_scenario(s: &Scenario, ctl: &CtlRef, creator_err: CreatorErr) -> Vec<
 }
 
 /// The scenario list shared by C11 and C12.
+/// A scenario whose input file the writer cannot produce is not judged (C01/C09 own that); it is
+/// noted once per process and the run ends with the steps taken so far.
+fn prerequisite<T>(steps: T, what: &str) -> T {
+    static NOTED: std::sync::atomic::AtomicBool = std::sync::atomic::AtomicBool::new(false);
+    if !NOTED.swap(true, std::sync::atomic::Ordering::Relaxed) {
+        println!("NOTE prerequisite: {what}; scenario left out");
+    }
+    steps
+}
+
 pub fn scenarios(thorough: bool) -> Vec<(String, Scenario)> {
     let mut v: Vec<(String, Scenario)> = Vec::new();
     let f_small = |codec: u8, levels: u8| {
